@@ -239,6 +239,53 @@ func c03Dense(small bool) c03Alphabet {
 	return al
 }
 
+// c03TextAlphabet is the dense alphabet for ONE text kind with the UTF-8 boundary cases: bytes
+// incl. invalid UTF-8 (continuation byte alone, truncated lead byte, invalid continuation,
+// 0xfe/0xff, a 4-byte character), strings incl. U+FFFD itself and a 4-byte character.  Bytes are
+// ordered RAW (bytewise), strings bytewise on their UTF-8; the two must never be confused, and
+// invalid bytes must never be sanitised before a comparison.  reduced = the subset used for the
+// exhaustive n = 3 enumeration.
+func c03TextAlphabet(bytesKind bool, reduced bool) c03Alphabet {
+	var al c03Alphabet
+	var vals []string
+	mk := c03Str
+	ty := "string"
+	if bytesKind {
+		mk = c03Bytes
+		ty = "bytes"
+		vals = []string{"", "a", "ab", "b", "é", "\x80", "\x81", "\xc3", "\xc3\x28", "\xfe", "\xff", "\xf0\x9f\x98\x80"}
+		if reduced {
+			vals = []string{"a", "é", "\x80", "\x81", "\xc3", "\xc3\x28", "\xfe", "\xff"}
+		}
+	} else {
+		vals = []string{"", "a", "ab", "b", "é", "\u0080", "\ufffd", "\U0001F600", "\u00ff"}
+		if reduced {
+			vals = []string{"a", "é", "\u0080", "\ufffd", "\U0001F600"}
+		}
+	}
+	for _, op := range []string{"lt", "le", "gt", "ge", "ne"} {
+		for _, v := range vals {
+			al.cons = append(al.cons, conBound(op, mk(v)))
+		}
+	}
+	al.cons = append(al.cons, conType(ty), conBound("ne", c03Null))
+	if !reduced {
+		for _, v := range vals {
+			al.cons = append(al.cons, conAtom(mk(v)))
+		}
+	}
+	for _, v := range vals {
+		al.atoms = append(al.atoms, mk(v))
+	}
+	// the same text in the other kind and a null must stay excluded
+	if bytesKind {
+		al.atoms = append(al.atoms, c03Str("a"), c03Str("\ufffd"), c03Null)
+	} else {
+		al.atoms = append(al.atoms, c03Bytes("a"), c03Bytes("\xef\xbf\xbd"), c03Bytes("\x80"), c03Null)
+	}
+	return al
+}
+
 // ---- implementation driver ---------------------------------------------------------
 
 type c03Impl struct {
@@ -647,10 +694,10 @@ func c03Cells(c *Cfg, r *Rng) {
 		operands = append(operands, c03Dec(bi(cf), -1))
 	}
 	operands = append(operands, c03Dec(bi(1), 1), c03Dec(bi(12), 0), c03Dec(bi(250), -2), c03Dec(bi(225), -2))
-	for _, s := range []string{"", "a", "ab", "b"} {
+	for _, s := range []string{"", "a", "ab", "b", "é", "\ufffd", "\U0001F600"} {
 		operands = append(operands, c03Str(s))
 	}
-	for _, s := range []string{"", "a", "b"} {
+	for _, s := range []string{"", "a", "b", "é", "\x80", "\x81", "\xc3", "\xc3\x28", "\xfe", "\xff", "\xf0\x9f\x98\x80"} {
 		operands = append(operands, c03Bytes(s))
 	}
 	groups = append(groups, operands)
@@ -791,12 +838,15 @@ func c03RandomCase(r *Rng, al c03Alphabet) ([]c03Con, []c03Atom) {
 		atoms = al.atoms
 	case mode < 5: // strings / bytes
 		strs := []string{"", "a", "aa", "ab", "b", "ba", "\x00", "a\x00", "é", "\u00ff", "\"", "a\\"}
-		isB := r.Chance(1, 3)
+		isB := r.Chance(1, 2)
 		mk := c03Str
 		ty := "string"
 		if isB {
 			mk = c03Bytes
 			ty = "bytes"
+			strs = append(strs, "\x80", "\x81", "\xc3", "\xc3\x28", "\xfe", "\xff", "\xf0\x9f\x98\x80", "\xef\xbf\xbd", "a\x80")
+		} else {
+			strs = append(strs, "\ufffd", "\U0001F600", "\u0080")
 		}
 		for i := 0; i < n; i++ {
 			switch r.Intn(8) {
@@ -975,6 +1025,33 @@ func runC03(c *Cfg) {
 			jobs = append(jobs, job{cs: []c03Con{Pick(r, small.cons), Pick(r, small.cons), Pick(r, small.cons)}, atoms: small.atoms, resid: true})
 		}
 	}
+	// bytes (incl. invalid UTF-8) and strings (incl. U+FFFD): exhaustive ordered n ≤ 2 in both tiers,
+	// n = 3 exhaustive over the reduced alphabet in the thorough tier and sampled in quick
+	var textAls []c03Alphabet
+	for _, isB := range []bool{true, false} {
+		full := c03TextAlphabet(isB, false)
+		red := c03TextAlphabet(isB, true)
+		textAls = append(textAls, full)
+		for _, x := range full.cons {
+			jobs = append(jobs, job{cs: []c03Con{x}, atoms: full.atoms, resid: true})
+			for _, y := range full.cons {
+				jobs = append(jobs, job{cs: []c03Con{x, y}, atoms: full.atoms, resid: true})
+			}
+		}
+		if c.Thorough() {
+			for _, x := range red.cons {
+				for _, y := range red.cons {
+					for _, z := range red.cons {
+						jobs = append(jobs, job{cs: []c03Con{x, y, z}, atoms: red.atoms, resid: true})
+					}
+				}
+			}
+		} else {
+			for i := 0; i < 2500; i++ {
+				jobs = append(jobs, job{cs: []c03Con{Pick(r, full.cons), Pick(r, full.cons), Pick(r, full.cons)}, atoms: full.atoms, resid: true})
+			}
+		}
+	}
 	// random n ≤ 4 incl. large magnitudes / high precision
 	nr := c.Pick(6000, 150000)
 	if c.Focus {
@@ -990,7 +1067,14 @@ func runC03(c *Cfg) {
 		rr := r.Sub()
 		var cs []c03Con
 		var atoms []c03Atom
-		if rr.Bool() {
+		if rr.Chance(1, 3) {
+			al := Pick(rr, textAls)
+			n := 1 + rr.Intn(3)
+			for j := 0; j < n; j++ {
+				cs = append(cs, Pick(rr, al.cons))
+			}
+			atoms = al.atoms
+		} else if rr.Bool() {
 			n := 1 + rr.Intn(3)
 			for j := 0; j < n; j++ {
 				cs = append(cs, Pick(rr, dense.cons))
